@@ -105,6 +105,42 @@ def natural_scale(x, window, L, S, D, style, kaldi, use_power):
     return float(np.max(np.sum(np.abs(X) ** (2 if use_power else 1), axis=1)))
 
 
+def natural_rows(x, window, L, S, D, style, kaldi, use_power):
+    """Per frame: the coefficient an all-pass unit-gain filter would produce on THAT frame (round-off of the
+    frame's transform is proportional to the frame's own level, not to the loudest frame of the utterance)."""
+    F = frames(np.asarray(x, dtype=np.float64), L, S, style, kaldi)
+    if F.shape[0] == 0:
+        return np.zeros(0)
+    X = np.fft.fft(F * window[None, :], n=D, axis=1)
+    return np.sum(np.abs(X) ** (2 if use_power else 1), axis=1)
+
+
+def compare_features_per_frame(got, ref, use_log, nat_rows, energy_col=False, rtol=1e-9, afrac=1e-12):
+    """Every frame is judged at its own scale: |a-b| <= rtol*|b| + afrac*(all-pass coefficient of that frame);
+    the energy coefficient (mean square of the frame) purely relatively."""
+    got = np.asarray(got, dtype=np.float64)
+    ref = np.asarray(ref, dtype=np.float64)
+    if got.shape != ref.shape:
+        return "shape %r, reference %r" % (got.shape, ref.shape)
+    if got.size == 0:
+        return None
+    if not np.all(np.isfinite(got)):
+        return "non-finite values in the output"
+    if use_log:
+        with np.errstate(over="ignore"):
+            g, r = np.exp(got), np.exp(ref)
+    else:
+        g, r = got, ref
+    tol = rtol * np.abs(r) + afrac * np.asarray(nat_rows)[:, None] + 1e-300
+    if energy_col:
+        tol[:, 0] = rtol * np.abs(r[:, 0]) + 1e-300
+    bad = np.abs(g - r) > tol
+    if np.any(bad):
+        k, c = np.argwhere(bad)[0]
+        return "frame %d coefficient %d is %r, reference %r (frame scale %r)" % (k, c, float(g[k, c]), float(r[k, c]), float(nat_rows[k]))
+    return None
+
+
 def compare_features(got, ref, use_log, rtol=1e-9, atol_frac=1e-12, natural=0.0):
     """Return None when equal within tolerance (linear domain, per column relative to the column
     maximum plus a fraction of the whole-matrix maximum), else a message."""
